@@ -65,6 +65,7 @@ var pktDecoderNames = []string{"ethernet", "ethernet:new", "vlan", "arp", "ipv4"
 // the structurally rich decoders get more of the case list
 var c08Schedule = []string{"ethernet", "ipv6", "ipv4", "packet_in", "hbh", "dhcp", "igmp3_report", "ethernet", "ipv6", "packet_in", "routing", "dhcp_options", "igmp3_query", "igmp3_record", "lldp", "ip6opt"}
 
+var c08Calls int // calls made by this worker process
 var c08Recorded int // inputs whose hash this worker process has recorded
 
 func init() {
@@ -139,6 +140,17 @@ type c08Run struct {
 func (t *c08Run) run(class string, in []byte) bool {
 	c := t.c
 	var err error
+	// like the contents of a pooled receive buffer, every third input is a window of a larger array with stale
+	// bytes behind it (cap > len): a decoder that slices past the end of its input then reads them instead of failing
+	c08Calls++
+	if c08Calls%3 == 1 {
+		big := make([]byte, len(in)+40)
+		for i := range big {
+			big[i] = 0xee
+		}
+		copy(big, in)
+		in = big[:len(in)]
+	}
 	v := fw.Guard(len(in), func() { err = t.f(in) })
 	if c08Recorded < 150000 {
 		c08Recorded++
